@@ -281,16 +281,27 @@ theorem setX_map_pen {st : St} {i : Nat} (x : WinX) (hp : x.pen = (getX st i).pe
       simp [this]
   · simp [hij]
 
-theorem consume_map_pen (st : St) (dead : List Nat) :
-    (consume st dead).wx.toList.map (·.pen) = st.wx.toList.map (·.pen) := by
-  unfold consume
-  simp only [Array.toList_map, List.map_map]
-  apply List.map_congr_left
-  intro x _
-  simp only [Function.comp]
-  split
-  · split <;> rfl
-  · rfl
+theorem consume_map_pen : ∀ (dropped : List Nat) (st : St),
+    (consume st dropped).wx.toList.map (·.pen) = st.wx.toList.map (·.pen)
+  | [], _ => rfl
+  | i :: rest, st => by
+    unfold consume
+    simp only [List.foldl_cons]
+    have := consume_map_pen rest (setX st i { getX st i with appRefs := (getX st i).appRefs - 1 })
+    unfold consume at this
+    rw [this]
+    exact setX_map_pen _ rfl
+
+theorem consume_frame : ∀ (dropped : List Nat) (st : St),
+    (consume st dropped).tree = st.tree ∧ (consume st dropped).pens = st.pens ∧ (consume st dropped).term = st.term ∧
+    (consume st dropped).rbs = st.rbs ∧ (consume st dropped).strs = st.strs ∧ (consume st dropped).penx = st.penx
+  | [], _ => ⟨rfl, rfl, rfl, rfl, rfl, rfl⟩
+  | i :: rest, st => by
+    unfold consume
+    simp only [List.foldl_cons]
+    have := consume_frame rest (setX st i { getX st i with appRefs := (getX st i).appRefs - 1 })
+    unfold consume at this
+    exact this
 
 end Tickit.Life
 
@@ -478,7 +489,7 @@ theorem unrefW_ok {cfg : Cfg} (R : Repaired cfg) {st : St} (inv : SInv st) {x : 
   have hl0 : LiveW (WinTree.set st.tree x { xw with refcount := xw.refcount - 1 }) x { xw with refcount := xw.refcount - 1 } :=
     ⟨set_get_self _ hl.lt, hl.2⟩
   -- the tree part
-  have tree : ∃ t' dead, unrefT cfg st.tree x = .ok (t', dead) ∧ SInvG { st with tree := t' } dead := by
+  have tree : ∃ t' dead dropped, unrefT cfg st.tree x = .ok (t', dead, dropped) ∧ SInvG { st with tree := t' } dead := by
     unfold unrefT unrefTWith
     simp only [get_live hl, bind_ok]
     have : ¬ xw.refcount < 1 := by omega
@@ -489,11 +500,11 @@ theorem unrefW_ok {cfg : Cfg} (R : Repaired cfg) {st : St} (inv : SInv st) {x : 
         intro i w hxi hli
         have hne : x ≠ i := by omega
         exact inv.rc i w ⟨by rw [← set_get_ne _ hne]; exact hli.1, hli.2⟩
-      obtain ⟨t', dead, hd, C⟩ := destroyT_ok R.closePurges R.dragForgottenOnClose R.destroyClosesChildren
+      obtain ⟨t', dead, dropped, hd, C⟩ := destroyT_ok R.closePurges R.dragForgottenOnClose R.destroyClosesChildren
         (chainFuel st.tree) _ x _ inv0 hl0 (by simp [chainFuel]) hrca
       rw [show chainFuel st.tree = chainFuel (WinTree.set st.tree x { xw with refcount := xw.refcount - 1 }) by simp] at hd ⊢
       rw [hz] at hd hl0 C
-      refine ⟨t', dead, by simpa using hd, ?_⟩
+      refine ⟨t', dead, dropped, by simpa using hd, ?_⟩
       -- relate the tree before the decrement to the final one
       have evs : ∀ (i : Nat) (w : Win), st.tree.wins[i]? = some w →
           ∃ w', t'.wins[i]? = some w' ∧ (w.freed = true → w'.freed = true) ∧
@@ -578,7 +589,7 @@ theorem unrefW_ok {cfg : Cfg} (R : Repaired cfg) {st : St} (inv : SInv st) {x : 
       · intro hf h
         exact inv.term_dead hf (.inl (hroot.1 h))
     · simp only [hz, if_false, pure_ok]
-      refine ⟨_, [], rfl, inv0, by simp only [set_size]; exact inv.wx_size, ?_, List.nodup_nil, by intro i hi; simp at hi, ?_,
+      refine ⟨_, [], [], rfl, inv0, by simp only [set_size]; exact inv.wx_size, ?_, List.nodup_nil, by intro i hi; simp at hi, ?_,
         ⟨inv.pens.rc, inv.pens.ex⟩, ?_, ?_, ?_, inv.rb_rc⟩
       · intro i w hli
         by_cases hix : i = x
@@ -609,10 +620,14 @@ theorem unrefW_ok {cfg : Cfg} (R : Repaired cfg) {st : St} (inv : SInv st) {x : 
       · exact inv.term_held hf (by rcases h with h | h; exact .inl (hroot.1 h); simp at h)
       · exact inv.term_free hf (by rintro (h' | h'); exact h (.inl (hroot.2 h')); simp at h')
       · exact inv.term_dead hf (by rcases h with h | h; exact .inl (hroot.1 h); simp at h)
-  obtain ⟨t', dead, ht, invG⟩ := tree
-  obtain ⟨st2, hfold, inv2, _⟩ := release_all dead invG
-  refine ⟨consume st2 dead, ?_, inv2.of_wx rfl rfl rfl rfl (consume_map_pen st2 dead)⟩
+  obtain ⟨t', dead, dropped, ht, invG⟩ := tree
+  have hf := consume_frame dropped { st with tree := t' }
+  have invC : SInvG (consume { st with tree := t' } dropped) dead :=
+    invG.of_wx hf.1 hf.2.1 hf.2.2.1 hf.2.2.2.1 (consume_map_pen dropped _)
+  obtain ⟨st2, hfold, inv2, _⟩ := release_all dead invC
+  refine ⟨st2, ?_, inv2⟩
   unfold unrefW
-  simp only [ht, bind_ok, hfold, pure_ok]
+  simp only [ht, bind_ok]
+  exact hfold
 
 end Tickit.Life
